@@ -267,7 +267,7 @@ class Lowerer:
         self.meta = {'functions': [], 'dropped': {'destructor_sites': 0}, 'asserts': [], 'loops': []}
         self.srcroot = srcroot
         self._names_taken = {}
-        self._calls = {}; self.may_throw = set(); self._stmt_may_throw = False; self._opaque_fields = {}
+        self._calls = {}; self.may_throw = set(); self._stmt_may_throw = False; self._opaque_fields = {}; self._fn_locals = {}
         self._assign_names()
 
     # ---------------------------------------------------------------- names
@@ -797,7 +797,10 @@ class Lowerer:
             self.extern_calls[name] = '%s %s(void *self, ...)' % (self.ctype(n['type']), name)
             return '%s(%s)' % (name, ', '.join(a))
         if ref.get('virtual'):
-            raise Unsupported('virtual call to ' + ref.get('name', ''))
+            # dynamic dispatch is not modelled; a virtual callee is accepted only as a stub (its contract then stands for every override)
+            cdef = self.tu.funcs.get(self.tu.canon.get(i, i))
+            if not (cdef is not None and self._is_stub(cdef)) and not (self.tu.qname.get(i) in self.stubs or self.fn_cname.get(self.tu.canon.get(i, i)) in self.stubs):
+                raise Unsupported('virtual call to ' + ref.get('name', ''))
         return self._call(ref, obj, args, n)
 
     def e_CXXOperatorCallExpr(self, n):
@@ -1293,8 +1296,12 @@ class Lowerer:
                     text += '  %s;\n' % self.construct_into(c['inner'][0], '(self->__base)')
                 else:
                     raise Unsupported('delegating constructor')
+        toplevel = []
         for c in body.get('inner', []):
+            if c.get('kind') == 'DeclStmt':
+                toplevel += [x.get('name') for x in c.get('inner', []) if x.get('kind') == 'VarDecl' and x.get('name')]
             text += self.stmt(c, '  ')
+        self._fn_locals[name] = toplevel
         proto = '%s %s(%s)' % (self._ret_c, name, ', '.join(params) or 'void')
         self.protos[d['id']] = proto
         head = '%s%s\n  OSMT_CONTRACT_%s\n{\n' % (self.line(d), proto, name)
@@ -1414,6 +1421,12 @@ class Lowerer:
         en += exc
         recs = self._emit_records(skip_records)
         protos = ''.join(self.protos[i] + ';\n' for i in self.order if self.fn_cname[i] not in skip_funcs)
+        # which variables are declared at function level (a contract may ask, to stay meaningful when a variable's scope changes)
+        for i in self.order:
+            fn = self.fn_cname[i]
+            if fn in skip_funcs: continue
+            for v in self._fn_locals.get(fn, []):
+                protos += '#define OSMT_FNLOCAL_%s_%s 1\n' % (fn, sanitize(v))
         self.globals_emitted = ['g_' + sanitize(self.tu.qname[i]) for i in self.need_globals]
         ext = ''.join('/* stub: %s */\n' % s for s in sorted(self.extern_calls.values()))
         self.meta['stubs_called'] = sorted(self.extern_calls.values())
